@@ -117,6 +117,24 @@ func ruleQueueLinks(c *Ctx) {
 				}
 				return true
 			})
+			// (iii) the call sits in the body of `if q.tracker.len() > 0 { … }` (or != 0)
+			if why == "" {
+				var child ast.Node = cs.call
+				for par := p.Parent(cs.call); par != nil; child, par = par, p.Parent(par) {
+					if ifs, ok := par.(*ast.IfStmt); ok && p.inside(child, ifs.Body) {
+						if be, ok := ast.Unparen(ifs.Cond).(*ast.BinaryExpr); ok && (be.Op == token.GTR || be.Op == token.NEQ) {
+							if call, ok := ast.Unparen(be.X).(*ast.CallExpr); ok && selName(call) == "len" {
+								if tv, ok := info.Types[be.Y]; ok && tv.Value != nil && tv.Value.String() == "0" {
+									why = "inside `if q.tracker.len() > 0 { … }`"
+								}
+							}
+						}
+					}
+					if _, ok := par.(*ast.FuncDecl); ok {
+						break
+					}
+				}
+			}
 			R.Check(why != "", "D5p", at, pos, why, fmt.Sprintf("%s calls popFront without establishing that the queue is not empty: on an empty queue front.link is nil and the dereference panics (or the sentinel is handed out as an item)", f.Name))
 		}
 	}
@@ -133,7 +151,7 @@ func ruleQueueLinks(c *Ctx) {
 				return true
 			}
 			if l.Sel.Name == "link" {
-				if inner, ok := ast.Unparen(l.X).(*ast.SelectorExpr); ok && inner.Sel.Name == "back" {
+				if inner, ok := ast.Unparen(resolveLocal(add, l.X)).(*ast.SelectorExpr); ok && inner.Sel.Name == "back" {
 					linkStore = as
 				}
 			}
@@ -216,7 +234,23 @@ func ruleX5b(c *Ctx) {
 			default:
 				bad := len(rets) == 0
 				for _, rs := range rets {
-					if e := errOf(rs); e == nil || isNilIdent(info, e) {
+					e := errOf(rs)
+					if e == nil {
+						// bare return: the named error result must have been assigned a non-nil value in this arm
+						assigned := false
+						for _, st := range cc.Body {
+							if as, ok := st.(*ast.AssignStmt); ok && len(as.Lhs) == 1 && len(as.Rhs) == 1 {
+								if tv, ok := info.Types[as.Lhs[0]]; ok && types.Identical(tv.Type, types.Universe.Lookup("error").Type()) && !isNilIdent(info, as.Rhs[0]) {
+									assigned = true
+								}
+							}
+						}
+						if !assigned {
+							bad = true
+						}
+						continue
+					}
+					if isNilIdent(info, e) {
 						bad = true
 					}
 				}
